@@ -1,3 +1,4 @@
+import threading
 import warnings
 from collections import defaultdict
 from contextlib import contextmanager
@@ -91,7 +92,9 @@ def find_top_boxed_args(args):
     return top_boxes, top_trace, top_node_type
 
 
-class TraceStack:
+class TraceStack(threading.local):
+    # Trace ids only have to be ordered within one thread (inner traces get larger ids than the
+    # traces enclosing them), so each thread keeps its own depth counter.
     def __init__(self):
         self.top = -1
 
